@@ -32,6 +32,10 @@ def run(tier):
     for spec, n in (("prefix", 3), ("amb", 2), ("open", 3), ("uni", 2 if tier == "quick" else 3)):
         conds.append(Cond("h_parse_api.py", "api_sound", 600 if tier == "quick" else 2400, twin="reach_api" if spec == "prefix" else None,
                           env={"H_SPEC": spec, "H_LEN": str(n if tier == "quick" else n + 1)}))
+    from checks.parsefam import RX_SPECS
+    for spec, alpha, ql, tl in RX_SPECS:
+        conds.append(Cond("h_parse_str.py", "sound_fa", 600 if tier == "quick" else 2400, twin="reach_fa" if spec == "rx2" else None,
+                          env={"H_SPEC": spec, "H_LEN": str(ql if tier == "quick" else tl), "H_ALPHA": alpha}))
     conds.append(Cond("h_parse_api.py", "bytes_sound", 600 if tier == "quick" else 2400, twin="reach_bytes", env={"H_BLEN": "2" if tier == "quick" else "3"}))
     run.run_conditions(conds, conformance_harnesses=["h_parse_str.py", "h_parse_api.py"])
     run.encoded = ["IterativeParser.new_parse/consume/_consume/predict/scan_bytes/complete/place_repetition_shortcut/"
@@ -41,8 +45,9 @@ def run(tier):
     run.bounds = {"word": "str over all code points", "max_len": {s: (q if tier == "quick" else t) for s, q, t in STR_SPECS},
                   "grammars": [s for s, _, _ in STR_SPECS]}
     run.bounds["api level"] = "Grammar.parse_forest after one prior request (none / prefix-mode parse / first-tree request / other word / both modes) on words over the spec's letters"
+    run.bounds["regex terminals"] = "5 grammars with regex terminals (one matching the empty string, one optional digit, one under a star) on ALL words over a 2-4 letter alphabet up to length 3-4 (finite alphabet: the regex engines realise the word)"
     run.bounds["bytes input"] = "bytes words of length <= 2 (3) over {e9,78,c3,a9,00,79} against a grammar mixing non-ASCII str literals and bytes literals"
-    run.outside = ["regex terminals (third-party C matcher realises its subject)", "words longer than the bound",
+    run.outside = ["regex terminals on words outside the stated finite alphabets", "words longer than the bound",
                    "grammars outside the fixed family", "the constraint filter of Fandango.parse (see C07/C02 checks)"]
     run.assumptions = ["CrossHair 0.0.110 + plug-in (engine/plugin.py) is faithful to CPython on this code: checked by the conformance gate",
                        "z3 5.1 verdicts", "reference checker harness/common.py valid()/text_of()"]
